@@ -114,7 +114,12 @@ def gen_direct(rng, infeasible=False, classes=None, plain=False):
                 b = {"U": -1.0, "L": 1.0, "S": 0.5, "N": -0.5}[t]
             rows.append({"t": t, "cols": [], "vals": [], "b": b})
         rng.shuffle(rows)
-    if infeasible:
+    if infeasible and bools and rng.random() < 0.3:
+        # infeasible through a boolean flag alone: the bounds of a flagged variable contain neither 0 nor 1
+        i = rng.choice(bools)
+        l[i], u[i] = rng.choice([(0.5, 0.5), (2., 2.), (0.25, 0.75), (1.5, 3.), (-1., -1.)])
+        x0[i] = l[i]
+    elif infeasible:
         k = rng.randint(1, min(n, 3))
         cols = sorted(rng.sample(range(n), k))
         vals = [1.0] * k
@@ -464,7 +469,12 @@ class Conversation:
                 got = list(range(n))
             else:
                 got = sorted(int(i) for i in np.asarray(x.boolean_idx[0] if isinstance(x.boolean_idx, tuple) else [t[0] for t in x.boolean_idx]).ravel())
-        if got != want:
+        # a flagged variable whose bounds pin it to 0 or to 1 may be sent without the flag (same feasible set)
+        l_, u_ = np.asarray(op.l, float), np.asarray(op.u, float)
+        redundant = {i for i in want if l_[i] == u_[i] and l_[i] in (0.0, 1.0)}
+        if got != want and set(got) - set(want) == set() and set(want) - set(got) <= redundant:
+            self.stats["request_omits_pinned_booleans"] = self.stats.get("request_omits_pinned_booleans", 0) + 1
+        elif got != want:
             self.viol("request-booleans", "boolean variables in the request %s, flagged in the mapping %s" % (got[:12], want[:12]), "bools")
             return
         rec["bools"] = want
@@ -594,6 +604,17 @@ class Conversation:
             self.events.append((tag, "fail:%s" % res))
             eao_opts = bool(rec and rec.get("eao_options"))
             peer_raised = status == "raised"      # real or injected exception of the peer: it claimed nothing at all
+            if rec is None and isinstance(res, str):
+                # a failure reported without asking any solver is EAO's own claim that no feasible point exists
+                self.stats["failures_checked"] += 1
+                st, val, _w = reference(op, bools)
+                self.stats["ref_solves"] += 1
+                if st == "optimal":
+                    self.viol("failure-reported-but-feasible", "optimize() reports '%s' without having asked a solver, but the problem has a feasible point "
+                              "(verified witness, value %r)" % (res, val), "no-solve")
+                elif st == "infeasible":
+                    self.probes["true_infeasible_reported"] += 1
+                return None
             if res == "not successful" and peer_raised and fault in (None, "raise"):
                 # an exception of the peer turned into "no solution exists"
                 self.stats["failures_checked"] += 1
@@ -900,7 +921,40 @@ class Conversation:
     def check_split(self, joint_len, ops, res, log, faults, bools_all):
         if isinstance(res, str) or res is None:
             self.events.append(("split", "fail:%s" % res))
-            self.stats["no_claim"] += 1
+            if isinstance(res, str) and not any(faults) and all(r.get("status") in ("optimal", "infeasible") for r in log):
+                # a failure string of the split optimiser in a fault-free conversation claims that the joint problem has no
+                # feasible point, i.e. that some interval has none
+                self.stats["failures_checked"] += 1
+                refs = [reference(o, bl) for o, bl in zip(ops, bools_all)]
+                self.stats["ref_solves"] += len(refs)
+                if all(r_[0] == "optimal" for r_ in refs):
+                    said = [k for k, r in enumerate(log) if r.get("status") == "infeasible"]
+                    if not said:
+                        self.viol("failure-reported-but-feasible", "the split optimize() reports '%s' although no solver call ended 'infeasible' (statuses %s) and "
+                                  "every interval has a feasible point (verified witnesses)" % (res, [r.get("status") for r in log]), "split-not-successful")
+                    elif getattr(self, "misaligned", False) or len(log) != len(ops):
+                        self.stats["inconclusive"] += 1
+                    else:
+                        for k in said:
+                            cv = None
+                            if k in self.requests:
+                                prob, xv, oth = self.requests[k]
+                                try:
+                                    xv.save_value(np.asarray(refs[k][2], float))
+                                    self.set_aux(oth, refs[k][2])
+                                    cv = max([float(np.max(np.atleast_1d(c.violation()), initial=0)) for c in prob.constraints] or [0.0])
+                                except Exception:
+                                    cv = None
+                            if cv is not None and cv <= 1e-6 * (1 + float(np.abs(refs[k][2]).max(initial=0))) and not log[k].get("eao_options"):
+                                self.stats["peer_false_infeasible"] = self.stats.get("peer_false_infeasible", 0) + 1
+                            else:
+                                self.viol("failure-reported-but-feasible", "interval %d: the split optimize() reports '%s' but the interval has a feasible point "
+                                          "(verified witness) which is not feasible in the request EAO sent (violation there %r)" % (k, res, cv), "split-not-successful")
+                                break
+                elif any(r_[0] == "infeasible" for r_ in refs):
+                    self.probes["true_infeasible_reported"] += 1
+            else:
+                self.stats["no_claim"] += 1
             return
         bad = [f for f in faults if f and (f == "raise" or f.startswith("status:"))]
         if bad and not getattr(self, "misaligned", False) and len(log) == len(ops):
